@@ -435,4 +435,11 @@ theorem fillLocal_init : FillLocal ({} : Local) := by intro h; cases h
 theorem BlindAct.readOnlyAt {a : Act} (h : BlindAct a) (s0 : Shared) : ReadOnlyAt s0 (fun _ => True) a :=
   fun l _ => ⟨h.1 s0 l, trivial⟩
 
+theorem mem_mkSys {s : Shared} {progs : List (List Act)} {t : Thread Shared Local}
+    (h : t ∈ (mkSys s progs).threads) : t.loc = {} ∧ t.todo ∈ progs := by
+  simp only [mkSys, List.mem_map] at h
+  obtain ⟨p, hp, rfl⟩ := h
+  exact ⟨rfl, hp⟩
+
+
 end Restli.SharedCells
